@@ -63,6 +63,9 @@ struct Case {
     deflate: bool,
     /// records written in styles.bin between BrtEndFmts and BrtBeginCellXFs (fonts, fills, borders …)
     spre: Vec<(u16, Vec<u8>)>,
+    /// complete bytes of whole parts (by zip name), replacing the generated ones (malformed workbook / styles /
+    /// shared-string parts)
+    raw: Vec<(String, Vec<u8>)>,
     /// `-` = well-formed; otherwise the name of the single fault that was injected
     fault: String,
     sheets: Vec<SheetCase>,
@@ -162,7 +165,8 @@ impl Case {
             Framing::Random(s) => format!("r{s}"),
         };
         let spre = if self.spre.is_empty() { "-".to_string() } else { self.spre.iter().map(|(i, p)| format!("{i}:{}", hex(p))).collect::<Vec<_>>().join(",") };
-        let mut s = format!("xlsb d={} xfs={xfs} fmts={fmts} sst={sst} fr={fr} z={} spre={spre} fault={}", self.date1904 as u8, self.deflate as u8, self.fault);
+        let raw = if self.raw.is_empty() { "-".to_string() } else { self.raw.iter().map(|(n, b)| format!("{n}:{}", hex(b))).collect::<Vec<_>>().join(",") };
+        let mut s = format!("xlsb d={} xfs={xfs} fmts={fmts} sst={sst} fr={fr} z={} spre={spre} raw={raw} fault={}", self.date1904 as u8, self.deflate as u8, self.fault);
         for sh in &self.sheets {
             s.push_str(&format!(
                 " # {} {} {}",
@@ -220,6 +224,16 @@ impl Case {
                 })
                 .collect(),
         };
+        let raw = match head.iter().find_map(|t| t.strip_prefix("raw=")) {
+            None | Some("-") => vec![],
+            Some(s) => s
+                .split(',')
+                .map(|x| {
+                    let (a, b) = x.rsplit_once(':').unwrap();
+                    (a.to_string(), unhex(b))
+                })
+                .collect(),
+        };
         let mut sheets = vec![];
         for p in parts {
             let t: Vec<&str> = p.split(' ').filter(|x| !x.is_empty()).collect();
@@ -230,7 +244,7 @@ impl Case {
                 items: t[3..].iter().map(|x| Fr::parse(x)).collect(),
             });
         }
-        Case { date1904: val("d=") == "1", xfs, fmts, sst, framing, deflate: val("z=") == "1", spre, fault: val("fault=").to_string(), sheets }
+        Case { date1904: val("d=") == "1", xfs, fmts, sst, framing, deflate: val("z=") == "1", spre, raw, fault: val("fault=").to_string(), sheets }
     }
 }
 
@@ -512,6 +526,7 @@ fn build_book(c: &Case, parts: &[Vec<u8>]) -> XlsbBook {
     b.framing = c.framing.clone();
     b.deflate = c.deflate;
     b.styles_pre = c.spre.clone();
+    b.raw_parts = c.raw.clone();
     for (sh, p) in c.sheets.iter().zip(parts) {
         let mut s = XlsbSheet::new(&sh.name);
         s.state = sh.state;
@@ -643,20 +658,42 @@ fn run_case(c: &Case, drv: &mut Driver, rep: Option<&mut Counters>) -> Outcome {
 
     // open
     let opened = guarded(|| Xlsb::new(Cursor::new(file.clone())));
+    // a malformed shared-string part: the model of `read_shared_strings` says how opening must end
+    let sst_model = c.raw.iter().find(|(n, _)| n == "xl/sharedStrings.bin").map(|(_, b)| drv.ask(&format!("sst {}", hex(b))));
     let mut wb = match opened {
-        Ok(Ok(wb)) => wb,
+        Ok(Ok(wb)) => {
+            if let Some(m) = &sst_model {
+                if !m.starts_with("ok") {
+                    out.fails.push(("impl_vs_model".into(), format!("corr_{}", c.fault), "opened".into(), m.clone(), "-".into()));
+                }
+            }
+            wb
+        }
         Ok(Err(e)) => {
+            if let Some(rep) = rep.as_deref_mut() {
+                rep.count(&format!("open_{}", err_class(&e).replace(':', "_")));
+            }
+            if !c.raw.is_empty() {
+                // a malformed part: an error is what is asked for
+                if let Some(m) = &sst_model {
+                    if *m != err_class(&e) {
+                        out.fails.push(("impl_vs_model".into(), format!("corr_{}", c.fault), err_class(&e), m.clone(), "-".into()));
+                    }
+                }
+                return out;
+            }
             out.fails.push(("impl_vs_spec".into(), "open_failed".into(), err_class(&e), "-".into(), "workbook opens".into()));
             return out;
         }
         Err(p) => {
-            out.fails.push(("impl_vs_spec".into(), "panic_open".into(), format!("panic:{p}"), "-".into(), "workbook opens".into()));
+            let sig = if c.fault == "-" { "panic_open".to_string() } else { format!("panic_open_{}", c.fault) };
+            out.fails.push(("impl_vs_spec".into(), sig, format!("panic:{p}"), "-".into(), "workbook opens, or an error".into()));
             return out;
         }
     };
     // style table, shared strings, date system through the hooks
     #[cfg(feature = "hooks")]
-    {
+    if c.raw.is_empty() {
         use calamine::verif_hooks::xlsb as hk;
         let f = hk::c03_formats(&wb);
         if f != classes {
@@ -687,6 +724,15 @@ fn run_case(c: &Case, drv: &mut Driver, rep: Option<&mut Counters>) -> Outcome {
     }
     let names = wb.sheet_names();
     let want_names: Vec<String> = c.sheets.iter().map(|s| s.name.clone()).collect();
+    if !c.raw.is_empty() {
+        // whole parts were replaced: only the absence of panics is asked of the remaining calls
+        for n in &names {
+            if let Err(p) = guarded(|| wb.worksheet_range(n).map(|_| ())) {
+                out.fails.push(("impl_vs_spec".into(), format!("panic_{}", c.fault), format!("panic:{p}"), "-".into(), "an error or a range, never a panic".into()));
+            }
+        }
+        return out;
+    }
     if names != want_names {
         out.fails.push(("impl_vs_spec".into(), "sheet_names".into(), format!("{names:?}"), "-".into(), format!("{want_names:?}")));
         return out;
@@ -724,6 +770,11 @@ fn run_case(c: &Case, drv: &mut Driver, rep: Option<&mut Counters>) -> Outcome {
         };
         if got_ref != got_class {
             out.fails.push(("impl_vs_spec".into(), "range_ref_differs".into(), got_ref.clone(), model.clone(), got_class.clone()));
+        }
+        if c.fault.starts_with("fmla_") {
+            if let Err(p) = guarded(|| wb.worksheet_formula(&sh.name).map(|_| ())) {
+                out.fails.push(("impl_vs_spec".into(), format!("panic_{}", c.fault), format!("panic:{p}"), model.clone(), "worksheet_formula: an error or a range, never a panic".into()));
+            }
         }
         let (expect, want) = oracle_sheet(c, sh);
         if let Some(rep) = rep.as_deref_mut() {
@@ -1093,6 +1144,7 @@ fn gen_case(rng: &mut Rng) -> Case {
         },
         deflate: rng.chance(1, 2),
         spre,
+        raw: vec![],
         fault: "-".into(),
         sheets,
     }
@@ -1352,6 +1404,7 @@ fn base_case(data: Vec<It>) -> Case {
         framing: Framing::Minimal,
         deflate: false,
         spre: vec![],
+        raw: vec![],
         fault: "-".into(),
         sheets: vec![sheet_of(data)],
     }
@@ -1407,6 +1460,112 @@ fn corpus() -> Vec<Case> {
     let mut c = base_case(vec![row(0), cell(0, 1, Kind::Real(44197.0f64.to_bits()), false)]);
     c.spre = vec![(0x0263, vec![1, 0, 0, 0]), (0x002B, vec![0xE9, 0x04, 1, 0, 0, 0, 0x90, 0x01, 0, 0, 0, 2]), (0x0264, vec![])];
     v.push(c);
+    // C06 sites (fixed by /repo 0093417 cbbeadd 0080716 d7dbfd1): one minimal malformed part per former panic site
+    {
+        let rec = |id: u16, p: &[u8]| -> Vec<u8> {
+            let mut o = vec![];
+            xlsbw::put_record(&mut o, id, p, xlsbw::Frame::default());
+            o
+        };
+        let cat = |v: &[Vec<u8>]| -> Vec<u8> { v.concat() };
+        let ws = |s: &str| xlsbw::wide_str(s);
+        let bundle = |rid: &str, name: &str| -> Vec<u8> {
+            let mut p = vec![0u8; 8];
+            p[4] = 1;
+            p.extend(ws(rid));
+            p.extend(ws(name));
+            p
+        };
+        let wbprop = rec(0x99, &[0, 0, 0, 0, 0, 0, 0, 0, 0, 0, 0, 0]);
+        let good_sheet = rec(0x9C, &bundle("rId1", "Sheet1"));
+        let mut wbs: Vec<(&str, Vec<u8>)> = vec![];
+        wbs.push(("wb_relid_missing", cat(&[rec(0x83, &[]), wbprop.clone(), rec(0x8F, &[]), rec(0x9C, &bundle("rId9", "Sheet1")), rec(0x90, &[]), rec(0x84, &[])])));
+        wbs.push(("wb_bundlesh_empty", cat(&[rec(0x83, &[]), wbprop.clone(), rec(0x9C, &[]), rec(0x90, &[]), rec(0x84, &[])])));
+        let mut long_rel = vec![0u8; 8];
+        long_rel.extend_from_slice(&100u32.to_le_bytes());
+        long_rel.extend_from_slice(&[0x72, 0, 0x49, 0]);
+        wbs.push(("wb_bundlesh_rel_len", cat(&[rec(0x83, &[]), rec(0x9C, &long_rel), rec(0x90, &[]), rec(0x84, &[])])));
+        wbs.push(("wb_wbprop_empty", cat(&[rec(0x83, &[]), rec(0x99, &[]), good_sheet.clone(), rec(0x90, &[]), rec(0x84, &[])])));
+        wbs.push(("wb_externsheet_short", cat(&[good_sheet.clone(), rec(0x90, &[]), rec(0x16A, &[1, 0]), rec(0x84, &[])])));
+        wbs.push(("wb_externsheet_entry", cat(&[good_sheet.clone(), rec(0x90, &[]), rec(0x16A, &[1, 0, 0, 0, 0, 0, 0, 0, 0, 0]), rec(0x84, &[])])));
+        wbs.push(("wb_name_short", cat(&[good_sheet.clone(), rec(0x90, &[]), rec(0x27, &[0, 0, 0, 0, 0]), rec(0x84, &[])])));
+        let mut nm = vec![0u8; 9];
+        nm.extend(ws("N"));
+        wbs.push(("wb_name_no_formula", cat(&[good_sheet.clone(), rec(0x90, &[]), rec(0x27, &nm), rec(0x84, &[])])));
+        nm.extend_from_slice(&50u32.to_le_bytes());
+        nm.extend_from_slice(&[0x1E, 1, 0]);
+        wbs.push(("wb_name_rgce_len", cat(&[good_sheet.clone(), rec(0x90, &[]), rec(0x27, &nm), rec(0x84, &[])])));
+        for (fault, bytes) in wbs {
+            let mut c = base_case(vec![]);
+            c.fault = fault.into();
+            c.raw = vec![("xl/workbook.bin".into(), bytes)];
+            v.push(c);
+        }
+        let xf = rec(0x2F, &[0xFF, 0xFF, 14, 0, 0, 0, 0, 0, 0, 0, 0, 0, 0, 0, 0, 0]);
+        let stys: Vec<(&str, Vec<u8>)> = vec![
+            ("sty_beginfmts_empty", cat(&[rec(0x116, &[]), rec(0x267, &[]), rec(0x269, &[1, 0, 0, 0]), xf.clone()])),
+            ("sty_fmt_short", cat(&[rec(0x267, &[1, 0, 0, 0]), rec(0x2C, &[164]), rec(0x269, &[1, 0, 0, 0]), xf.clone()])),
+            ("sty_fmt_no_string", cat(&[rec(0x267, &[1, 0, 0, 0]), rec(0x2C, &[164, 0, 5]), rec(0x269, &[1, 0, 0, 0]), xf.clone()])),
+            ("sty_begincellxfs_short", cat(&[rec(0x267, &[0, 0, 0, 0]), rec(0x269, &[1, 0])])),
+            ("sty_xf_short", cat(&[rec(0x267, &[0, 0, 0, 0]), rec(0x269, &[1, 0, 0, 0]), rec(0x2F, &[0xFF, 0xFF, 14])])),
+        ];
+        for (fault, bytes) in stys {
+            let mut c = base_case(vec![]);
+            c.fault = fault.into();
+            c.raw = vec![("xl/styles.bin".into(), bytes)];
+            v.push(c);
+        }
+        let ssts: Vec<(&str, Vec<u8>)> = vec![
+            ("sst_begin_short", cat(&[rec(0x9F, &[1, 0, 0, 0])])),
+            ("sst_item_empty", cat(&[rec(0x9F, &[1, 0, 0, 0, 1, 0, 0, 0]), rec(0x13, &[])])),
+            ("sst_item_no_count", cat(&[rec(0x9F, &[1, 0, 0, 0, 1, 0, 0, 0]), rec(0x13, &[0, 1, 0])])),
+            ("sst_item_count_long", cat(&[rec(0x9F, &[1, 0, 0, 0, 1, 0, 0, 0]), rec(0x13, &[0, 9, 0, 0, 0, 0x41, 0])])),
+            ("sst_count_too_big", cat(&[rec(0x9F, &[3, 0, 0, 0, 3, 0, 0, 0]), rec(0x13, &[0, 1, 0, 0, 0, 0x41, 0]), rec(0xA0, &[])])),
+        ];
+        for (fault, bytes) in ssts {
+            let mut c = base_case(vec![]);
+            c.fault = fault.into();
+            c.raw = vec![("xl/sharedStrings.bin".into(), bytes)];
+            v.push(c);
+        }
+        // a record that declares 2^28-1 bytes and delivers none (fill_buffer allocated the declared length)
+        let mut c = base_case(vec![]);
+        c.fault = "sheet_record_len_2_28".into();
+        c.raw = vec![("xl/worksheets/sheet1.bin".into(), vec![0x81, 0x01, 0x00, 0x94, 0x01, 0xFF, 0xFF, 0xFF, 0x7F])];
+        v.push(c);
+    }
+    // short cell / row-header / BrtWsDim records in the sheet part (former panic sites of next_cell and new)
+    for (fault, id, payload) in [
+        ("short_rk_int", 2u16, vec![0u8; 8]),
+        ("short_error", 3, vec![0; 8]),
+        ("short_fmla_error", 11, vec![0; 6]),
+        ("short_bool", 4, vec![0; 3]),
+        ("short_real", 5, vec![0; 15]),
+        ("short_fmla_real", 9, vec![0; 9]),
+        ("short_str", 6, vec![0; 7]),
+        ("short_str_no_count", 6, vec![0; 10]),
+        ("short_isst", 7, vec![0; 11]),
+        ("short_rowhdr", 0, vec![0; 3]),
+    ] {
+        let mut c = base_case(vec![row(0), It::Raw { id, payload }]);
+        c.fault = fault.into();
+        v.push(c);
+    }
+    let mut c = base_case(vec![]);
+    c.sheets[0].items[1] = Fr { it: It::Raw { id: 0x94, payload: vec![0; 15] }, wide: false, lenw: 0 };
+    c.fault = "wsdim_short".into();
+    v.push(c);
+    // formula records cut inside their formula (former panic sites of next_formula)
+    for (fault, kind, tail) in [
+        ("fmla_cce_too_big", Kind::Real(1.0f64.to_bits()), vec![0u8, 0, 16, 0, 0, 0, 0x1E]),
+        ("fmla_no_cce", Kind::Bool(1), vec![0, 0, 3]),
+        ("fmla_str_no_formula", Kind::Str(vec![0x41]), vec![0]),
+        ("fmla_error_no_formula", Kind::Err(7), vec![0]),
+    ] {
+        let mut c = base_case(vec![row(0), It::Cell { col: 0, style: 0, kind, fmla: Some(tail) }]);
+        c.fault = fault.into();
+        v.push(c);
+    }
     // … and one whose last payload byte has the high bit set (swallowed the id of BrtBeginCellXFs)
     let mut c = base_case(vec![row(0), cell(0, 1, Kind::Real(44197.0f64.to_bits()), false)]);
     c.spre = vec![(0x002B, vec![0xDC, 0, 0, 0, 0x80])];
@@ -1592,7 +1751,7 @@ fn sweeps(args: &Args, rng: &mut Rng, drv: &mut Driver, rep: &mut Report) {
         };
         // oracle: length-prefixed UTF-16 units
         let expect = if buf.len() < 4 {
-            "panic".to_string()
+            "err:WideStr".to_string()
         } else {
             let len = u32::from_le_bytes([buf[0], buf[1], buf[2], buf[3]]) as usize;
             if buf.len() < 4 + 2 * len {
@@ -1606,7 +1765,7 @@ fn sweeps(args: &Args, rng: &mut Rng, drv: &mut Driver, rep: &mut Report) {
         rep.count(&format!("wstr_{}", expect.split(|c| c == ' ' || c == ':').next().unwrap()));
         let bom = buf.len() >= 7 && (buf[4..6] == [0xFF, 0xFE] || buf[4..6] == [0xFE, 0xFF] || buf[4..7] == [0xEF, 0xBB, 0xBF]);
         let sig = if bom { "widestr_bom" } else { "widestr" };
-        if got != expect && expect != "panic" {
+        if got != expect {
             rep.fail("impl_vs_spec", sig, &input, &got, &model_n, &expect);
         }
         if got != model_n {
